@@ -338,6 +338,13 @@ RECURSIVE Sprinkle(_, _)
 Sprinkle(w, j) == IF w = <<>> THEN <<UnknownRecs[(j % 5) + 1]>>
                   ELSE <<UnknownRecs[(j % 5) + 1], Head(w)>> \o Sprinkle(Tail(w), j + 1)
 
+\* ... and at every boundary of every nested message and map entry as well ("anywhere in a message"): an empty nested
+\* message then holds nothing but an unknown field
+RECURSIVE SprinkleDeep(_, _)
+Inside(r, j) == IF r.k \in MsgKinds \cup {"entry"} THEN [r EXCEPT !.sub = SprinkleDeep(r.sub, j)] ELSE r
+SprinkleDeep(w, j) == IF w = <<>> THEN <<UnknownRecs[(j % 5) + 1]>>
+                      ELSE <<UnknownRecs[(j % 5) + 1], Inside(Head(w), j + 1)>> \o SprinkleDeep(Tail(w), j + 1)
+
 \* unknown fields whose numbers share their low 16 bits with a declared field (a field table indexed by a
 \* truncated number would take them for that field): after the message, with the same and another wire type
 Aliased(sh, w) == w \o Concat([i \in 1..Len(sh) |-> <<R(Num(sh, i) + 65536, 0, "u64", 1, <<>>),
@@ -346,7 +353,7 @@ Aliased(sh, w) == w \o Concat([i \in 1..Len(sh) |-> <<R(Num(sh, i) + 65536, 0, "
 
 Reencodings == [reordered |-> Reordered(wire), overridden |-> Overridden(shape, val, wire),
                 split |-> SplitMsgs(shape, wire), unknown |-> Sprinkle(wire, Len(shape)),
-                aliased |-> Aliased(shape, wire)]
+                aliased |-> Aliased(shape, wire), deep |-> SprinkleDeep(wire, Len(shape))]
 
 ReencodeStable ==
   shape # <<>> => /\ Equiv(Decode(shape, Reencodings.reordered), val)
@@ -354,6 +361,7 @@ ReencodeStable ==
                   /\ Equiv(Decode(shape, Reencodings.split), val)
                   /\ Equiv(Decode(shape, Reencodings.unknown), val)
                   /\ Equiv(Decode(shape, Reencodings.aliased), val)
+                  /\ Equiv(Decode(shape, Reencodings.deep), val)
 
 -----------------------------------------------------------------------------
 EmitVector == (Emit /\ shape # <<>>) =>
